@@ -135,7 +135,7 @@ type slot struct {
 }
 
 // Limit is the per-call time limit; exceeding it counts as non-termination.
-var Limit = 10 * time.Second
+var Limit = 180 * time.Second // generous: a parse takes microseconds; a short limit is a wall-clock judgment on a loaded machine
 
 // Invoke runs one entry point on a private copy of the input, catching panics.
 func Invoke(e *Entry, in []byte, s *slot) (out Outcome, buf []byte) {
